@@ -26,6 +26,7 @@ sets = [
                                                    "asin", "acos", "atan", "atan2", "float_fractional_part",
                                                    "float_integer_part", "round"]])),
     ("C20", lambda: prolog.replay_string_suffix_compare([])),
+    ("C20copy", lambda: prolog.replay_string_copy([])),
     ("C13", lambda: prolog.replay_term_order([])),
     ("C13atoms", lambda: prolog.replay_atom_order([])),
     ("C21", lambda: prolog.replay_atom_identity([])),
